@@ -1,6 +1,7 @@
 package main
 
 import (
+	"time"
 	"flag"
 	"fmt"
 	"os"
@@ -192,15 +193,19 @@ func main() {
 		}
 		bad := 0
 		for _, u := range units {
+			t0 := time.Now()
 			r := p.RunUnit(u)
+			tExec := time.Since(t0)
 			if r.Missing {
 				fmt.Printf("UNIT %s: target missing\n", u)
 				bad++
 				continue
 			}
 			tmp, _ := os.MkdirTemp("", "walvc")
+			t1 := time.Now()
 			SolveAll(r.Obls, tmp, *timeout, *all)
 			os.RemoveAll(tmp)
+			fmt.Printf("  (symbolic execution %.1fs, solving %.1fs)\n", tExec.Seconds(), time.Since(t1).Seconds())
 			counts := map[string]int{}
 			for _, o := range r.Obls {
 				counts[o.Status]++
@@ -213,7 +218,7 @@ func main() {
 				fmt.Printf("  NOTE stale-contract: %s\n", n)
 			}
 			for _, o := range r.Obls {
-				ok := o.Status == "proved" || o.Status == "covered"
+				ok := o.Status == "proved" || o.Status == "covered" || o.Kind == "deadprobe"
 				if o.Expect == "sat" && o.Status == "uncovered" {
 					// only a problem if no sibling covered
 					sib := false
@@ -231,6 +236,8 @@ func main() {
 				}
 				if !ok {
 					bad++
+				}
+				if !ok || (o.Ms > 3000 && o.Kind != "deadprobe") {
 					if *dump != "" {
 						os.MkdirAll(*dump, 0755)
 						fn := fmt.Sprintf("%s/%s_%s.smt2", *dump, sanitize(strings.ReplaceAll(o.Name, "/", "_")), o.Path)
